@@ -147,6 +147,12 @@ fn grid(env: &Env) {
                 judge("array.copy_from<u8>", Dir::Write, n, abase + goff, l, &take_events(), true);
                 let _ = arr.copy_to(rb.as_mut());
                 judge("array.copy_to<u8>", Dir::Read, n, abase + goff, l2, &take_events(), true);
+                // the same element array obtained by conversion from a slice
+                let arr2: vm_memory::VolatileArrayRef<u8, ()> = vs.subslice(goff, n).unwrap().into();
+                arr2.copy_from(buf.as_ref());
+                judge("array-from-slice.copy_from<u8>", Dir::Write, n, abase + goff, l, &take_events(), true);
+                let _ = arr2.copy_to(rb.as_mut());
+                judge("array-from-slice.copy_to<u8>", Dir::Read, n, abase + goff, l2, &take_events(), true);
                 // in-memory stream adapters
                 let mut src: &[u8] = buf.as_ref();
                 let _ = vs.read_volatile_from(goff, &mut src, n);
@@ -516,6 +522,30 @@ fn probe() {
                 xfer!("L", rbase + off, n, concat!("guest.read_slice[", $tn, "]"), { let _ = gm.read_slice(rb.as_mut(), GuestAddress(0x1000 + off as u64)); });
                 xfer!("S", abase + off, n, concat!("slice.copy_from<u8>[", $tn, "]"), { vs.subslice(off, n).unwrap().copy_from::<u8>(buf.as_ref()); });
                 xfer!("L", abase + off, n, concat!("slice.copy_to<u8>[", $tn, "]"), { let _ = vs.subslice(off, n).unwrap().copy_to::<u8>(rb.as_mut()); });
+                // the array-ref copy helpers called directly, the region- and guest-level buffer
+                // forms and the remaining in-memory stream adapters
+                let arr = vs.get_array_ref::<u8>(off, n).unwrap();
+                xfer!("S", abase + off, n, concat!("array.copy_from<u8>[", $tn, "]"), { arr.copy_from(buf.as_ref()); });
+                xfer!("L", abase + off, n, concat!("array.copy_to<u8>[", $tn, "]"), { let _ = arr.copy_to(rb.as_mut()); });
+                let arr2: vm_memory::VolatileArrayRef<u8, ()> = vs.subslice(off, n).unwrap().into();
+                xfer!("S", abase + off, n, concat!("array-from-slice.copy_from<u8>[", $tn, "]"), { arr2.copy_from(buf.as_ref()); });
+                xfer!("S", rbase + off, n, concat!("region.write[", $tn, "]"), { let _ = reg.write(buf.as_ref(), MemoryRegionAddress(off as u64)); });
+                xfer!("L", rbase + off, n, concat!("region.read[", $tn, "]"), { let _ = reg.read(rb.as_mut(), MemoryRegionAddress(off as u64)); });
+                xfer!("S", rbase + off, n, concat!("region.write_slice[", $tn, "]"), { let _ = reg.write_slice(buf.as_ref(), MemoryRegionAddress(off as u64)); });
+                xfer!("L", rbase + off, n, concat!("region.read_slice[", $tn, "]"), { let _ = reg.read_slice(rb.as_mut(), MemoryRegionAddress(off as u64)); });
+                xfer!("S", rbase + off, n, concat!("guest.write[", $tn, "]"), { let _ = gm.write(buf.as_ref(), GuestAddress(0x1000 + off as u64)); });
+                xfer!("L", rbase + off, n, concat!("guest.read[", $tn, "]"), { let _ = gm.read(rb.as_mut(), GuestAddress(0x1000 + off as u64)); });
+                let mut cur = std::io::Cursor::new(buf.as_ref());
+                xfer!("S", abase + off, n, concat!("slice.read_exact_volatile_from(Cursor)[", $tn, "]"), { let _ = vs.read_exact_volatile_from(off, &mut cur, n); });
+                let mut sink = ABuf::new(n, 0, |_| 0);
+                {
+                    let mut dst: &mut [u8] = sink.as_mut();
+                    xfer!("L", abase + off, n, concat!("slice.write_volatile_to(&mut [u8])[", $tn, "]"), { let _ = vs.write_volatile_to(off, &mut dst, n); });
+                }
+                let mut vsink: Vec<u8> = Vec::with_capacity(16);
+                xfer!("L", abase + off, n, concat!("slice.write_all_volatile_to(Vec)[", $tn, "]"), { let _ = vs.write_all_volatile_to(off, &mut vsink, n); });
+                let mut gsrc: &[u8] = buf.as_ref();
+                xfer!("S", rbase + off, n, concat!("guest.read_exact_volatile_from(&[u8])[", $tn, "]"), { let _ = gm.read_exact_volatile_from(GuestAddress(0x1000 + off as u64), &mut gsrc, n); });
                 let mut src: &[u8] = buf.as_ref();
                 xfer!("S", abase + off, n, concat!("slice.read_volatile_from(&[u8])[", $tn, "]"), { let _ = vs.read_volatile_from(off, &mut src, n); });
                 // atomic forms: store may be an xchg (reported as a modify)
